@@ -39,14 +39,16 @@ fn load_in_pool(bytes: &[u8], threads: usize) -> Result<String, String> {
 fn load_in_pool(bytes: &[u8], _threads: usize) -> Result<String, String> { load_with_order(bytes, None) }
 
 /// one object stream whose index may repeat object numbers; cross-reference stream with type-2 entries
-fn craft_objstm_file(pairs: &[(u32, Object)]) -> Vec<u8> {
+fn craft_objstm_file(pairs: &[(u32, Object)]) -> Vec<u8> { craft_objstm_file_n(pairs, pairs.len()) }
+/// `n_entry`: the value of `/N` (may be smaller or larger than the number of pairs the index block lists)
+fn craft_objstm_file_n(pairs: &[(u32, Object)], n_entry: usize) -> Vec<u8> {
     let mut body = vec![]; let mut index = String::new();
     for (n, o) in pairs { index.push_str(&format!("{} {} ", n, body.len())); lopdf::verif_api::Writer::write_object(&mut body, o).unwrap(); body.push(b' '); }
     let first = index.len();
     let mut content = index.into_bytes(); content.extend_from_slice(&body);
     let mut f = b"%PDF-1.5\n".to_vec();
     let off1 = f.len(); f.extend_from_slice(b"1 0 obj\n<</Type/Catalog>>\nendobj\n");
-    let off2 = f.len(); f.extend_from_slice(format!("2 0 obj\n<</Type/ObjStm/N {}/First {}/Length {}>>\nstream\n", pairs.len(), first, content.len()).as_bytes());
+    let off2 = f.len(); f.extend_from_slice(format!("2 0 obj\n<</Type/ObjStm/N {}/First {}/Length {}>>\nstream\n", n_entry, first, content.len()).as_bytes());
     f.extend_from_slice(&content); f.extend_from_slice(b"\nendstream\nendobj\n");
     let off3 = f.len();
     let mut nums: Vec<u32> = pairs.iter().map(|p| p.0).collect(); nums.sort(); nums.dedup();
@@ -220,6 +222,46 @@ fn craft_shared_length_objstm_file(r: &mut Rng) -> Vec<u8> {
     f.extend_from_slice(&rows); f.extend_from_slice(format!("\nendstream\nendobj\nstartxref\n{}\n%%EOF", xoff).as_bytes());
     f
 }
+/// an ENCRYPTED file (RC4, empty user password, so that loading decrypts it at once) with two object-stream
+/// containers that both list member `900`: the containers are expanded by `decrypt_raw`, not by `Reader::read`
+/// (hook H1 does not reach that loop). The lower-numbered container is large, the higher one tiny, so that a
+/// completion-order dependent merge shows on pools of two or more threads.
+fn craft_encrypted_objstm_file(r: &mut Rng) -> Option<Vec<u8>> {
+    use lopdf::{EncryptionState, EncryptionVersion, Permissions};
+    let mut doc = Document::with_version("1.5");
+    let cat = doc.add_object(Object::Dictionary({ let mut d = Dictionary::new(); d.set("Type", Object::Name(b"Catalog".to_vec())); d }));
+    doc.trailer.set("Root", Object::Reference(cat));
+    doc.trailer.set("ID", Object::Array(vec![Object::string_literal("0123456789abcdef"), Object::string_literal("0123456789abcdef")]));
+    let container = |members: &[(u32, String)]| -> Object {
+        let mut body = String::new(); let mut index = String::new();
+        for (n, text) in members { index.push_str(&format!("{} {} ", n, body.len())); body.push_str(text); body.push(' '); }
+        let first = index.len(); let content = format!("{}{}", index, body).into_bytes();
+        let mut d = Dictionary::new(); d.set("Type", Object::Name(b"ObjStm".to_vec())); d.set("N", Object::Integer(members.len() as i64)); d.set("First", Object::Integer(first as i64));
+        Object::Stream(lopdf::Stream::new(d, content))
+    };
+    let big = 2000 + r.usize(20000);
+    let mut a: Vec<(u32, String)> = (0..big).map(|k| (1000 + k as u32, format!("{}", k))).collect();
+    a.insert(r.usize(big), (900, "/FromLowerContainer".into()));
+    let b: Vec<(u32, String)> = vec![(900, "/FromHigherContainer".into()), (901, "7".into())];
+    let _ida = doc.add_object(container(&a)); let _idb = doc.add_object(container(&b));
+    let state = EncryptionState::try_from(EncryptionVersion::V2 { document: &doc, owner_password: "owner", user_password: "", key_length: 128, permissions: Permissions::all() }).ok()?;
+    doc.encrypt(&state).ok()?;
+    // written by hand: `Document::save` omits object streams
+    let mut f = b"%PDF-1.5\n".to_vec(); let mut offs: Vec<(u32, usize)> = vec![];
+    for (id, obj) in doc.objects.iter() {
+        offs.push((id.0, f.len()));
+        f.extend_from_slice(format!("{} {} obj\n", id.0, id.1).as_bytes());
+        lopdf::verif_api::Writer::write_object(&mut f, obj).ok()?;
+        f.extend_from_slice(b"\nendobj\n");
+    }
+    let x = f.len(); let size = offs.iter().map(|o| o.0).max().unwrap_or(0) + 1;
+    f.extend_from_slice(format!("xref\n0 {}\n0000000000 65535 f \n", size).as_bytes());
+    for n in 1..size { match offs.iter().find(|o| o.0 == n) { Some((_, o)) => f.extend_from_slice(format!("{:010} 00000 n \n", o).as_bytes()), None => f.extend_from_slice(b"0000000000 65535 f \n") } }
+    let mut tr = doc.trailer.clone(); tr.set("Size", Object::Integer(size as i64));
+    f.extend_from_slice(b"trailer\n"); lopdf::verif_api::Writer::write_object(&mut f, &Object::Dictionary(tr)).ok()?;
+    f.extend_from_slice(format!("\nstartxref\n{}\n%%EOF", x).as_bytes());
+    Some(f)
+}
 fn load_with_zero(bytes: &[u8], k: Option<usize>) -> Result<String, String> {
     *ZERO_ORDER.lock().unwrap() = k;
     let r = guard(|| Document::load_mem(bytes));
@@ -239,6 +281,17 @@ fn zero_independent(c: &mut Ctx, file: &[u8], stream: &str, zero_run: &mut u64) 
             Err(e) => { c.oracle_fail("completion-order-dependent", &format!("{}: order #{}: {}", stream, k, e), json!({"file": hex(file)})); return; }
         }
         if k < 3 { let reply = { *ZERO_ORDER.lock().unwrap() = Some(k); let s = load_reply(file); *ZERO_ORDER.lock().unwrap() = None; s }; c.corr(format!("load_zero {} {}", k, hex_tok(file)), reply); }
+    }
+}
+/// as `order_independent`, without the model correspondence (encrypted files are outside the reader model)
+fn order_independent_nomodel(c: &mut Ctx, file: &[u8], stream: &str, pool_loads: &mut u64) {
+    let base = match load_with_order(file, None) { Ok(d) => d, Err(e) => { c.oracle_fail("load-error", &format!("{}: {}", stream, e), json!({"file_len": file.len()})); return; } };
+    c.count(&format!("{}.cases", stream));
+    for t in [1usize, 2, 3, 4, 8, 16] {
+        for _rep in 0..3 {
+            *pool_loads += 1;
+            match load_in_pool(file, t) { Ok(d) => if d != base { c.oracle_fail("schedule-dependent", &format!("{}: load on a pool of {} threads differs from the first load", stream, t), json!({"file": if file.len() < 200000 { hex(file) } else { String::new() }, "file_len": file.len()})); return; }, Err(e) => { c.oracle_fail("schedule-dependent", &e, json!({})); return; } }
+        }
     }
 }
 /// the document must be the same on every pool size, repeatedly, and equal to the model's sequential semantics
@@ -316,7 +369,10 @@ run in the no-default-features (sequential) build. Non-trivial = file with >= 2 
         let Some(mut r) = c.case("dup_in_stream", i) else { continue };
         let n = 4 + r.usize(60);
         let pairs: Vec<(u32, Object)> = (0..n).map(|k| (10 + r.below(1 + n as u64 / 3) as u32, Object::Integer(k as i64))).collect();
-        let file = craft_objstm_file(&pairs);
+        // `/N` sometimes disagrees with the number of pairs the index block lists (fewer or more)
+        let n_entry = match r.below(4) { 0 => n.saturating_sub(1 + r.usize(n / 2 + 1)), 1 => n + 1 + r.usize(5), _ => n };
+        if n_entry != n { c.count("dup_in_stream.n_entry_differs"); }
+        let file = craft_objstm_file_n(&pairs, n_entry);
         order_independent(c, &file, "dup_in_stream", &mut pool_loads);
     }
     for i in 0..c.n(60, 600) {
@@ -385,6 +441,22 @@ run in the no-default-features (sequential) build. Non-trivial = file with >= 2 
             Err((site, msg)) => c.oracle_fail(&format!("panic@{}", site), &msg, json!({"file": hex(&file)})),
         }
         if i % 4 == 0 { order_independent(c, &file, "shared_length_objstm", &mut pool_loads); } else { c.corr(format!("load {}", hex_tok(&file)), load_reply(&file)); }
+    }
+    // ---- encrypted files: object streams are expanded by decrypt_raw during the load
+    for i in 0..c.n(4, 30) {
+        let Some(mut r) = c.case("encrypted_objstm", i) else { continue };
+        let Some(file) = craft_encrypted_objstm_file(&mut r) else { c.count("encrypted_objstm.not_built"); continue };
+        match guard(|| Document::load_mem(&file)) {
+            Ok(Ok(d)) => {
+                match d.objects.get(&(900, 0)) {
+                    Some(Object::Name(n)) if n == b"FromLowerContainer" => c.count("encrypted_objstm.lower_container_wins"),
+                    other => c.oracle_fail("encrypted-objstm-member", &format!("member 900 of two containers of an encrypted file loads as {:?} (the sequential reader keeps the copy of the lower-numbered container)", other.map(|o| show_obj(o))), json!({"file_len": file.len()})),
+                }
+            }
+            Ok(Err(e)) => c.oracle_fail("load-error", &format!("encrypted_objstm: {:?}", e), json!({})),
+            Err((site, msg)) => c.oracle_fail(&format!("panic@{}", site), &msg, json!({})),
+        }
+        order_independent_nomodel(c, &file, "encrypted_objstm", &mut pool_loads);
     }
     c.extra.insert("completion_orders_run".into(), json!(zero_run));
     // ---- witness F-C08-a: the same number in two containers -> two orders, two documents
